@@ -1,5 +1,5 @@
 """Shared by C18/C19: file alphabet for ld.so.preload, batch execution of the real snoopyctl, reference predicates."""
-import os, itertools, subprocess
+import os, re, itertools, subprocess
 from engine import build
 from engine.common import VERIF, BUILD, AUX, sh, pmap, CLEAN_ENV
 
@@ -35,7 +35,9 @@ def line_alphabet(LIB):
             # one line that alone makes the file larger than 10 KiB (beyond any "small file" helper)
             b'# ' + b'y' * 11000,
             # comments that do not start in column one (for the loader a '#' starts a comment wherever it stands)
-            b' # ' + LIB, b'\t# libsnoopy.so is switched off']
+            b' # ' + LIB, b'\t# libsnoopy.so is switched off',
+            # the own entry as a token that does not start in column one: indented, after / between other libraries, twice on one line
+            b' ' + LIB, b'\t' + LIB + b' # c', b'/usr/lib/libfoo.so ' + LIB + b' /usr/lib/libbar.so', b'/usr/lib/libfoo.so\t' + LIB + b' # c', LIB + b' ' + LIB]
 
 
 def files(LIB, maxlines, extra=True):
@@ -90,9 +92,64 @@ def is_comment(line):
     return line.lstrip(b' \t')[:1] == b'#'
 
 
+def tokens(line):
+    """library tokens of a line as the dynamic loader sees them: the part before a '#', split at blanks and tabs (a CR is part of a token)"""
+    return [t for t in re.split(rb'[ \t]+', line.split(b'#', 1)[0]) if t]
+
+
 def own_entry_line(line, LIB):
-    return line.startswith(LIB) and (len(line) == len(LIB) or line[len(LIB):len(LIB) + 1] in (b' ', b'\t', b'#'))
+    """the library's own path is one of the line's active tokens (wherever it stands on the line)"""
+    return LIB in tokens(line)
 
 
 def active_mentions(content):
     return [l for l in lines_of(content) if not is_comment(l) and NAME in l]
+
+
+def huge_file_cases(ck, cli, LIB):
+    """Preload files whose size does not fit an int (sparse: a head, a hole, another library's entry as the very last line).  For each
+    (size, command): afterwards the file is either untouched (size, head and tail) or it is the old content plus / minus exactly the own entry;
+    in particular the last line - somebody else's library - is still the last foreign line.  Returns [(label, [problems])]."""
+    out = []
+    tail = b'/usr/lib/liblast.so\n'
+    for cmd in ('enable', 'disable'):
+        head = (LIB + b'\n' if cmd == 'disable' else b'') + b'/usr/lib/libfirst.so\n'
+        for label, size in (('2^32+head', 2 ** 32 + len(head)), ('2^32', 2 ** 32), ('2^31+5', 2 ** 31 + 5), ('2^31-1', 2 ** 31 - 1), ('2^33+head', 2 ** 33 + len(head))):
+            pf = os.path.join(ck.workdir, 'huge.preload')
+            for f in os.listdir(ck.workdir):
+                if f.startswith('huge.preload'):
+                    os.unlink(os.path.join(ck.workdir, f))
+            with open(pf, 'wb') as f:
+                f.write(head)
+                f.truncate(size)
+                f.seek(size - len(tail))
+                f.write(tail)
+            env = dict(CLEAN_ENV, SNOOPY_TEST_LD_SO_PRELOAD_PATH=pf, SNOOPY_TEST_LIBSNOOPY_SO_PATH=LIB.decode(), ASAN_OPTIONS='detect_leaks=0:exitcode=99:allocator_may_return_null=1')
+            r = sh([cli, cmd], env=env, timeout=600)
+            bad = []
+            try:
+                st = os.stat(pf)
+                with open(pf, 'rb') as f:
+                    h2 = f.read(len(head) + len(LIB) + 2)
+                    f.seek(max(0, st.st_size - len(tail) - len(LIB) - 2))
+                    t2 = f.read()
+            except OSError:
+                st, h2, t2 = None, b'', b''
+            untouched = st is not None and st.st_size == size and h2.startswith(head) and t2.endswith(tail)
+            if cmd == 'enable':
+                changed_ok = st is not None and st.st_size == size + len(LIB) + 1 and h2.startswith(head) and t2.endswith(tail + LIB + b'\n')
+            else:
+                changed_ok = st is not None and st.st_size == size - len(LIB) - 1 and h2.startswith(head[len(LIB) + 1:]) and t2.endswith(tail)
+            if r.returncode >= 98 and r.returncode != 127:
+                bad.append('crash_rc%d' % r.returncode)
+            if r.returncode != 0 and not untouched:
+                bad.append('refused_but_modified')
+            if r.returncode == 0 and not (untouched or changed_ok):
+                bad.append('reported_success_but_file_is_neither_old_nor_new:size_%s_to_%s:last_foreign_entry_%s' % (size, st.st_size if st else None, 'kept' if tail in t2 else 'LOST'))
+            if r.returncode == 0 and untouched:
+                bad.append('reported_success_without_doing_anything')
+            out.append(('%s:file_of_%s_bytes' % (cmd, label), bad))
+            for f in os.listdir(ck.workdir):
+                if f.startswith('huge.preload'):
+                    os.unlink(os.path.join(ck.workdir, f))
+    return out
